@@ -83,6 +83,33 @@ class _FragGen:
             return leaf()
         return ["n", r.choice(["Sum", "Product"]), [["t", [leaf(), leaf()]]]]
 
+    cfloat = False
+
+    def cplxf_expr(self, d):
+        """(cplx kind, complex_constant_base_type="float") complex<float> variables and complex
+        constants only: C++ has no complex<float> op double, and every real literal the mapper
+        prints is a double"""
+        r = self.r
+        e = self.expr
+        o = r.choice(["sum", "prod", "sub", "pow", "quot", "gpow", "call"])
+        if o == "sum":
+            return ["n", "Sum", [["t", [e(d + 1) for _ in range(r.randint(2, 3))]]]]
+        if o == "prod":
+            return ["n", "Product", [["t", [e(d + 1) for _ in range(r.randint(2, 3))]]]]
+        if o == "sub":
+            neg = ["n", "Product", [["t", [["i", -1], e(d + 1)]]]]
+            items = [e(d + 1), neg]
+            r.shuffle(items)
+            return ["n", "Sum", [["t", items]]]
+        if o == "pow":
+            return ["n", "Power", [e(d + 1), ["i", r.choice([1, 2, 2])]]]
+        if o == "quot":
+            return ["n", "Quotient", [e(d + 1), e(d + 1)]]
+        if o == "gpow":
+            return ["n", "Power", [e(d + 1), ["i", 3]]]
+        return ["n", "Call", [["n", "Variable", [["s", r.choice(["sin", "cos", "exp"])]]],
+                              ["t", [e(d + 1)]]]]
+
     def cplx_expr(self, d):
         """(cplx kind) double variables, float and complex constants; no integer constant
         meets a complex value (C++ has no complex<double> op int), no conditionals"""
@@ -121,7 +148,7 @@ class _FragGen:
     def const(self):
         r = self.r
         if self.kind == "cplx":
-            if r.random() < 0.3:
+            if r.random() < 0.3 or self.cfloat:
                 return ["c", repr(r.choice([-4.0, -1.0, 0.5, 2.0, -0.75])),
                         repr(r.choice([0.0, 0.0, 1.0, -2.0, 0.5]))]
             return ["f", repr(r.choice([0.5, 1.5, 2.0, 3.25, -1.0, -0.75, 4.0, 0.125]))]
@@ -207,8 +234,8 @@ class _FragGen:
             return self.wrap(self.expr(d + 1))
         k = self.kind
         if k == "cplx":
-            return self.cplx_expr(d)
-        ops = ["sum", "prod", "sub", "pow", "pow", "if", "neg"]
+            return self.cplxf_expr(d) if self.cfloat else self.cplx_expr(d)
+        ops = ["sum", "prod", "sub", "pow", "pow", "if", "neg", "ind"]
         if k == "int":
             ops += ["fdiv", "rem", "fdiv", "rem", "min", "max", "cmp"]
             if self.bitwise:
@@ -219,6 +246,8 @@ class _FragGen:
             ops += ["quot", "quot", "gpow", "call", "call"]
         o = r.choice(ops)
         e = self.expr
+        if o == "ind":
+            return self.indicator(d)
         if o in ("band", "bor", "bxor"):
             cls = {"band": "BitwiseAnd", "bor": "BitwiseOr", "bxor": "BitwiseXor"}[o]
             return ["n", cls, [["t", [e(d + 1) for _ in range(r.randint(2, 3))]]]]
@@ -278,6 +307,10 @@ class _FragGen:
             if how < 0.5:
                 num = ["n", "Sum", [["t", [e(d + 1), ["n", "Product", [["t", [["f", "-1.0"],
                                                                                  e(d + 1)]]]]]]]]
+            elif how < 0.65:
+                # indicators: floating only through the literals 1.0 / 0.0 in their branches
+                num = self.indicator(d) if r.random() < 0.5 else \
+                    ["n", "Sum", [["t", [self.indicator(d), self.indicator(d)]]]]
             elif how < 0.8:
                 num = ["n", "Product", [["t", [["f", r.choice(["1.0", "0.5", "2.0"])], e(d + 1)]]]]
             else:
@@ -313,6 +346,15 @@ class _FragGen:
             return ["n", "Call", [["n", "Variable", [["s", r.choice(["sin", "cos", "exp", "fabs"])]]],
                                   ["t", [e(d + 1)]]]]
         raise AssertionError(o)
+
+    def indicator(self, d):
+        """1 where a condition holds, 0 elsewhere -- with int or float literals"""
+        r = self.r
+        pairs = {"int": [(["i", 1], ["i", 0])], "float": [(["f", "1.0"], ["f", "0.0"])],
+                 "mixed": [(["i", 1], ["i", 0]), (["f", "1.0"], ["f", "0.0"]),
+                           (["f", "1.0"], ["f", "0.0"])]}[self.kind]
+        one, zero = r.choice(pairs)
+        return ["n", "If", [self.cond(d + 1), one, zero]]
 
     def divisor(self, d):
         r = self.r
@@ -372,6 +414,7 @@ def generate(seed, tier):
     g.weird_prefixes = r.random() < 0.06
     g.subclasses = r.random() < 0.3
     g.bitwise = r.random() < 0.4     # (integer programs) & | ^ ~ << >> as well
+    g.cfloat = kind == "cplx" and r.random() < 0.3    # complex_constant_base_type="float"
     ops = []
     npool = r.randint(2, 6)
     for k in range(npool):
@@ -397,6 +440,10 @@ def generate(seed, tier):
         env = {v: ["i", 0 if r.random() < 0.15 else r.randint(0, 12)] for v in INT_VARS}
     else:
         env = {v: ["f", repr(round(r.uniform(-3, 3), 3))] for v in FLT_VARS}
+        if kind == "float" and r.random() < 0.15:
+            # one input is not-a-number: every ordering comparison with it is false,
+            # in C as in the evaluator
+            env[r.choice(FLT_VARS)] = ["f", "nan"]
     prefix = r.choice(["_cse", "_cse", "_cse", "tmp_", "_c"])
     mappers = [{"m": 0, "parent": None, "kind": "mixin" if mixin else "root",
                 "reverse": r.random() < 0.5, "prefix": prefix, "mapped": []}]
@@ -447,7 +494,10 @@ def generate(seed, tier):
             bad = ["n", "Sum", [["t", [inner, ["n", "Unsupp", [g.var()]]]]]]
             t = ["n", "Product", [["t", [g.wrap(bad), t]]]] if r.random() < 0.7 else bad
         ops.append(["emit", m, t, fault])
-    return {"config": {"kind": kind, "env": env}, "ops": ops}
+    cfgd = {"kind": kind, "env": env}
+    if g.cfloat:
+        cfgd["cfloat"] = True
+    return {"config": cfgd, "ops": ops}
 
 # }}}
 
@@ -597,7 +647,7 @@ def _make_ref_evaluator():
             if isinstance(v, int) and abs(v) >= 2**31:
                 # also: arithmetic on integer *literals* is done in C's 32-bit int
                 self.bad.append("int-range")
-            elif isinstance(v, float) and not (abs(v) < 1e12):
+            elif isinstance(v, float) and v == v and not (abs(v) < 1e12):
                 self.bad.append("float-range")
             elif isinstance(v, complex):
                 if not self.allow_complex:
@@ -712,6 +762,8 @@ def execute(scenario, open_sigs):
 
     cfg = scenario["config"]
     kind = cfg["kind"]
+    cfloat = bool(cfg.get("cfloat")) and kind == "cplx"
+    cbt = {"complex_constant_base_type": "float"} if cfloat else {}
     B = spec.Builder({"Unsupp": Unsupp, "SubRem": SubRem, "SubQuot": SubQuot,
                       "SubProd": SubProd})
     env = {k: B.build(v) for k, v in cfg["env"].items()}
@@ -768,16 +820,16 @@ def execute(scenario, open_sigs):
                 for nm, t in d.get("preset") or []:
                     child = B.build(t)
                     try:
-                        pre.append((nm, CCodeMapper()(child), child))
+                        pre.append((nm, CCodeMapper(**cbt)(child), child))
                     except Exception:  # noqa: BLE001
                         continue
                 if pre:
                     m.obj = CCodeMapper(reverse=d["reverse"], cse_prefix=d["prefix"],
-                                        cse_name_list=[(nm, tx) for nm, tx, _ in pre])
+                                        cse_name_list=[(nm, tx) for nm, tx, _ in pre], **cbt)
                     m.preset = [(nm, child) for nm, _, child in pre]
                     probe("preset_assignments", len(pre))
                 else:
-                    m.obj = CCodeMapper(reverse=d["reverse"], cse_prefix=d["prefix"])
+                    m.obj = CCodeMapper(reverse=d["reverse"], cse_prefix=d["prefix"], **cbt)
         else:
             par = ms[d["parent"]]
             if d["kind"] == "copy":
@@ -951,7 +1003,7 @@ def execute(scenario, open_sigs):
                     probe("nested_wrappers")
                 # reference value now; the expression itself is not kept alive, so temporaries
                 # die between calls the way they do in real use (their addresses get recycled)
-                m.emitted.append((text, _expectation(Ref, e, kind, env, fenv, probes), opi))
+                m.emitted.append((text, _expectation(Ref, e, kind, env, fenv, probes, cfloat), opi))
             check_tables(m, text, opi)
             # names stay what they were, and a bare wrapper is referred to by its one name
             try:
@@ -1004,7 +1056,7 @@ def execute(scenario, open_sigs):
     post = None
     nontrivial = False
     if violation is None:
-        post, nontrivial = _build_post(ms, kind, env, fenv, Ref, p, probes)
+        post, nontrivial = _build_post(ms, kind, env, fenv, Ref, p, probes, cfloat)
     return {"events": events, "violation": violation, "known": known, "probes": probes,
             "faults": faults, "nontrivial": nontrivial, "steps": steps,
             "states": sorted(states)[:64], "post": post}
@@ -1058,7 +1110,7 @@ def _narrow_ok(e, v, kind, fenv):
         return False
 
 
-def _expectation(Ref, e, kind, env, fenv, probes):
+def _expectation(Ref, e, kind, env, fenv, probes, cfloat=False):
     ctx = dict(fenv)
     v, bad = _ref_value(Ref, e, ctx)
     ok = v is not None and not bad
@@ -1068,20 +1120,24 @@ def _expectation(Ref, e, kind, env, fenv, probes):
     if ok and kind == "mixed":
         return ["float", float(v), True]       # exact arithmetic by construction
     if ok and kind == "cplx":
+        # (single precision programs: inputs moved by 1e-5 must not move the value by 1e-4)
+        pert, stab = (1e-5, 1e-4) if cfloat else (1e-13, 1e-9)
         ctx2 = dict(ctx)
         for name in env:
-            ctx2[name] = ctx[name] * (1 + 1e-13)
+            ctx2[name] = ctx[name] * (1 + pert)
         cv = complex(v)
         good = True
         for c2, kw in ((ctx2, {}), (ctx, {"reverse": False, "naive": True}),
                        (ctx, {"reverse": True, "naive": True})):
             v2, bad2 = _ref_value(Ref, e, c2, **kw)
-            if v2 is None or bad2 or abs(complex(v2) - cv) > 1e-9 * max(1.0, abs(cv)):
+            if v2 is None or bad2 or abs(complex(v2) - cv) > stab * max(1.0, abs(cv)):
                 good = False
+        if cfloat and not (abs(cv) < 1e6):
+            good = False
         if not good:
             probes["discard_ill_conditioned"] = probes.get("discard_ill_conditioned", 0) + 1
             return ["illcond", None, True]
-        return ["cplx", [cv.real, cv.imag], True]
+        return ["cplxf" if cfloat else "cplx", [cv.real, cv.imag], True]
     if ok and kind == "float":
         # conditioning filter
         ctx2 = dict(ctx)
@@ -1106,7 +1162,7 @@ def _expectation(Ref, e, kind, env, fenv, probes):
     return ["discard", None, False]
 
 
-def _build_post(ms, kind, env, fenv, Ref, p, probes):
+def _build_post(ms, kind, env, fenv, Ref, p, probes, cfloat=False):
     """C functions for every mapper that emitted something, with expected values."""
     from pymbolic.mapper.c_code import CCodeMapper
     ctype = "double" if kind in ("float", "cplx") else "long long"
@@ -1129,12 +1185,18 @@ def _build_post(ms, kind, env, fenv, Ref, p, probes):
         ctx = dict(fenv)
         body = []
         for v, val in sorted(env.items()):
-            body.append(f"  {ctype} {v} = {val!r};" if kind in ("float", "cplx")
-                        else f"  {ctype} {v} = {val};")
+            if kind in ("float", "cplx"):
+                lit = "NAN" if val != val else repr(val)
+                if cfloat:
+                    body.append(f"  std::complex<float> {v} = std::complex<float>({lit}, 0.0);")
+                else:
+                    body.append(f"  {ctype} {v} = {lit};")
+            else:
+                body.append(f"  {ctype} {v} = {val};")
         runnable = True
         # names promised through copy_with_mapped_cses: define them from a fresh mapper's text
         for nm, child in m.ancestors_mapped + m.mapped:
-            cm = CCodeMapper()
+            cm = CCodeMapper(**({"complex_constant_base_type": "float"} if cfloat else {}))
             try:
                 txt = cm(child)
             except Exception:  # noqa: BLE001
@@ -1336,11 +1398,12 @@ def _compare(out, payloads, index, results):
                     res["violation"] = {"cls": "C14/program-crashed",
                                         "detail": {"missing_output": [name, j]}}
                 continue
-            if k == "cplx":
+            if k in ("cplx", "cplxf"):
                 res["probes"]["complex_values_compared"] = res["probes"].get(
                     "complex_values_compared", 0) + 1
                 gv, wv = complex(float(g[0]), float(g[1])), complex(*want)
-                if not (abs(gv - wv) <= 1e-7 * max(1.0, abs(wv))) and res["violation"] is None:
+                tol = 2e-3 if k == "cplxf" else 1e-7
+                if not (abs(gv - wv) <= tol * max(1.0, abs(wv))) and res["violation"] is None:
                     res["violation"] = {"cls": "C14/value-mismatch/complex", "detail": {
                         "op": opi, "c_text": fn["texts"][j], "c_value": [gv.real, gv.imag],
                         "evaluator": want,
@@ -1354,6 +1417,8 @@ def _compare(out, payloads, index, results):
             else:
                 res["probes"]["float_values_compared"] = res["probes"].get("float_values_compared", 0) + 1
                 gv = float(g)
+                if gv != gv and want != want:
+                    continue                       # not-a-number on both sides
                 if not (abs(gv - want) <= 1e-7 * max(1.0, abs(want))) and res["violation"] is None:
                     res["violation"] = {"cls": "C14/value-mismatch/float", "detail": {
                         "op": opi, "c_text": fn["texts"][j], "c_value": gv, "evaluator": want,
